@@ -1,5 +1,5 @@
 -------------------------- MODULE TraceStreamCodec --------------------------
-(* impl -> spec for C04/C07: runs of the real adapters (FramedRead / WebSocketFramed around the real
+(* impl -> spec for C04/C05/C07 (how soon a decoder notices tampering is not logged: TLC infers it): runs of the real adapters (FramedRead / WebSocketFramed around the real
    decoders) recorded as  Reset(layout) (Deliver(k) Quiet(observed totals))*  and checked against the
    StreamCodec design with the *real* field lengths of each run: after every delivery the design is
    run to quiescence (its Decode action, as often as it is enabled) and must have released exactly
@@ -8,17 +8,19 @@ EXTENDS Integers, Sequences, FiniteSets, TLC, Json, IOUtils
 
 Rec == ndJsonDeserialize(IOEnv.TRACE)
 
-VARIABLES lay, arrived, buf, nf, rawTaken, readable, plain, items, connect, lost, failed, panicked, firstRead, hist,
+VARIABLES lay, arrived, buf, nf, rawTaken, readable, plain, items, connect, lost, failed, panicked, eof, ended, firstRead, hist,
           l
 
 Dev == {}
 ShortBy == 0
+Slack == 100000000
 
-LayoutOf(r) == [fields |-> r.fields, hs |-> r.hs, datagram |-> r.datagram, exempt |-> r.exempt, adapter |-> r.adapter]
-InitLayout == LayoutOf(Rec[1])
+LayoutOf(r) == [fields |-> r.fields, hs |-> r.hs, datagram |-> r.datagram, exempt |-> r.exempt, adapter |-> r.adapter,
+                enc |-> r.enc, badFrom |-> r.badFrom, stop0 |-> r.stop0]
+InitLayouts == {LayoutOf(Rec[1])}
 SC == INSTANCE StreamCodec
 
-tvars == <<lay, arrived, buf, nf, rawTaken, readable, plain, items, connect, lost, failed, panicked, firstRead, hist, l>>
+tvars == <<lay, arrived, buf, nf, rawTaken, readable, plain, items, connect, lost, failed, panicked, eof, ended, firstRead, hist, l>>
 
 TraceInit == SC!Init /\ l = 2 /\ TLCSet(1, FALSE) /\ TLCSet(2, 0)
 
@@ -26,12 +28,18 @@ Reset ==
   /\ l <= Len(Rec) /\ Rec[l].ev = "Reset"
   /\ ~readable                                  \* the previous run was at rest
   /\ arrived' = 0 /\ buf' = 0 /\ nf' = 1 /\ rawTaken' = 0 /\ readable' = FALSE /\ plain' = 0 /\ items' = 0
-  /\ connect' = FALSE /\ lost' = FALSE /\ failed' = FALSE /\ panicked' = FALSE /\ firstRead' = 0 /\ hist' = <<>>
+  /\ connect' = FALSE /\ lost' = FALSE /\ failed' = FALSE /\ panicked' = FALSE /\ eof' = FALSE /\ ended' = FALSE
+  /\ firstRead' = 0 /\ hist' = <<>>
   /\ lay' = LayoutOf(Rec[l]) /\ l' = l + 1
 
 Deliver ==
   /\ l <= Len(Rec) /\ Rec[l].ev = "Deliver"
   /\ SC!Deliver(Rec[l].k)
+  /\ l' = l + 1
+
+Eof ==
+  /\ l <= Len(Rec) /\ Rec[l].ev = "Eof"
+  /\ SC!Eof
   /\ l' = l + 1
 
 \* internal step of the design: one decode call (not logged by the implementation)
@@ -41,17 +49,19 @@ Quiet ==
   /\ l <= Len(Rec) /\ Rec[l].ev = "Quiet"
   /\ ~readable \/ SC!Dead
   /\ Rec[l].plain = plain /\ Rec[l].items = items /\ Rec[l].connect = connect
-  /\ Rec[l].failed = failed /\ Rec[l].panicked = panicked
-  /\ UNCHANGED <<lay, arrived, buf, nf, rawTaken, readable, plain, items, connect, lost, failed, panicked, firstRead, hist>>
+  /\ Rec[l].failed = failed /\ Rec[l].panicked = panicked /\ Rec[l].ended = ended
+  /\ UNCHANGED <<lay, arrived, buf, nf, rawTaken, readable, plain, items, connect, lost, failed, panicked, eof, ended, firstRead, hist>>
   /\ l' = l + 1
 
-TraceNext == Reset \/ Deliver \/ Decode \/ Quiet
+TraceNext == Reset \/ Deliver \/ Eof \/ Decode \/ Quiet
 TraceSpec == TraceInit /\ [][TraceNext]_tvars
 
 NoStall == SC!NoStall
 NeverAhead == SC!NeverAhead
 NoErrorOnValid == SC!NoErrorOnValid
 NoPanic == SC!NoPanic
+TamperDetected == SC!TamperDetected
+ErrFinal == SC!ErrFinal
 
 \* Decode is an unlogged internal step, so acceptance is "the last line was consumed"
 Consumed == l = Len(Rec) + 1 => TLCSet(1, TRUE)
